@@ -193,6 +193,17 @@ func classifyProgram(sc *Script, rep *kit.Report) {
 		switch e.K {
 		case KCast:
 			rep.Class("has-cast")
+		case KCall:
+			rep.Class("has-call")
+			if len(e.Args) < len(sc.Helpers[e.F].Params) {
+				rep.Class("has-call-with-defaulted-argument")
+			}
+			for _, a := range e.Args {
+				walkE(a)
+				if a.K == KCall {
+					rep.Class("has-call-as-argument")
+				}
+			}
 		case KBin:
 			switch {
 			case e.Op == "^":
@@ -250,6 +261,9 @@ func classifyProgram(sc *Script, rep *kit.Report) {
 		}
 	}
 	walkS(sc.Body, 0)
+	for i := range sc.Helpers {
+		walkS(sc.Helpers[i].Body, 0)
+	}
 }
 
 func isBoundary(t Ty, bits uint64) bool {
